@@ -336,7 +336,101 @@ pub fn main_for(pid: &str) {
             }
         }
     }
+    // ---- xml:id stream (C04, "no accessor hands out a removed node"): the start document is PARSED, so that the parser's
+    // xml:id index is filled; after every call xml_id_node is asked for every id and the answers are part of the observation
+    if pid == "C04" || pid == "ALL" {
+        let n_id = if a.tier == "thorough" { 1500 } else { 120 };
+        for k in 0..n_id {
+            let mut r = base.fork(0x1D00_0000 + k as u64);
+            if let Some((line, obs)) = run_id_history(&format!("i{}", k), &mut r, None, None, if a.tier == "thorough" { 24 } else { 16 }, &mut out, &mut stats) {
+                out.case(&line);
+                stats.case(&line, true);
+                stats.bump("stream.xml_id_index");
+                out.imp(&obs);
+            }
+        }
+    }
     out.finish(&stats);
+}
+
+/// one history on a parsed document with xml:id attributes.  `xml` / `ops_in` Some = replay.
+fn run_id_history(case: &str, r: &mut Rng, xml: Option<String>, ops_in: Option<Vec<Op>>, steps: usize, out: &mut Out, stats: &mut Stats) -> Option<(String, String)> {
+    let mut st = Store::new();
+    let pool = make_pool(&mut st.xot, &mut st.reg, true);
+    let text = match xml {
+        Some(t) => t,
+        None => {
+            // a random well-formed document, some of whose elements carry xml:id (name index 1 of the registry)
+            let gcfg = GenCfg { max_nodes: 12, max_depth: 4, max_fanout: 3, adjacent_text: false, empty_text: false, doc_root: 100, fragment: 0, ..GenCfg::default() };
+            let mut t = gen_tree(r, &gcfg, &pool);
+            make_representable(&mut t);
+            let mut counter = 0usize;
+            fn sprinkle(r: &mut Rng, a: &mut ANode, counter: &mut usize) {
+                match a {
+                    ANode::Doc(kids) => { for k in kids.iter_mut() { sprinkle(r, k, counter); } }
+                    ANode::Elem { attrs, kids, .. } => {
+                        attrs.retain(|(n, _)| *n != 1);
+                        if r.chance(2, 3) { attrs.push((1, format!("i{}", *counter))); *counter += 1; }
+                        for k in kids.iter_mut() { sprinkle(r, k, counter); }
+                    }
+                    _ => {}
+                }
+            }
+            sprinkle(r, &mut t, &mut counter);
+            declare_missing(r, &mut t, &st.reg, &pool, 100);
+            let mut tmp = Store::new();
+            let _ = make_pool(&mut tmp.xot, &mut tmp.reg, true);
+            let root = build(&mut tmp.xot, &tmp.reg, &t);
+            match guard(|| tmp.xot.to_string(root)) { Ok(Ok(s)) => s, _ => { stats.bump("idstream.unserialisable_start"); return None; } }
+        }
+    };
+    let doc = match guard(|| st.xot.parse(&text)) { Ok(Ok(n)) => n, _ => { stats.bump("idstream.unparsable_start"); return None; } };
+    let doc_h = st.learn(doc);
+    st.refresh();
+    // the index as the crate reports it right after parsing
+    let mut ids: Vec<(String, Handle)> = vec![];
+    for n in st.xot.descendants(doc).collect::<Vec<_>>() {
+        if let Some(v) = st.xot.get_attribute(n, st.xot.xml_id_name()) {
+            let v = v.to_string();
+            if let Some(found) = st.xot.xml_id_node(doc, &v) { ids.push((v, handle(found))); }
+        }
+    }
+    let tables = st.reg.tables();
+    let init = st.readback();
+    let cfg = HistCfg { steps, refusal_bias: 15, with_clonep: false, with_rmws: false, rmws_pct: 0, clone_pct: 0 };
+    let nsteps = ops_in.as_ref().map(|v| v.len()).unwrap_or(steps);
+    let mut ops: Vec<Op> = vec![];
+    let mut obs: Vec<String> = vec![];
+    for k in 0..nsteps {
+        let op = match &ops_in { Some(v) => v[k].clone(), None => gen_op(r, &st, &pool, &cfg) };
+        let outcome = exec(&mut st, &op);
+        st.refresh();
+        stats.bump(&format!("op.{}", op_str(&op).split(' ').next().unwrap()));
+        let mut answers: Vec<String> = vec![];
+        for (id, h0) in &ids {
+            let doc_node = st.known[&doc_h];
+            match guard(|| st.xot.xml_id_node(doc_node, id)) {
+                Ok(Some(n)) => {
+                    let h = handle(n);
+                    answers.push(hs(h));
+                    stats.bump("idstream.answer_some");
+                    if st.xot.is_removed(n) || !st.live_handles().contains(&h) {
+                        out.fail(case, "accessor-returned-removed-node", &format!("after step {} `{}`: xml_id_node({:?}) returned {} which has been removed", k, op_str(&op), id, hs(h)));
+                    } else if h != *h0 {
+                        out.fail(case, "xml-id-answer-changed", &format!("after step {} `{}`: xml_id_node({:?}) returned {} but the parser recorded {}", k, op_str(&op), id, hs(h), hs(*h0)));
+                    }
+                }
+                Ok(None) => { answers.push("-".into()); stats.bump("idstream.answer_none"); }
+                Err(()) => { answers.push("PANIC".into()); out.fail(case, "panic", &format!("after step {} `{}`: xml_id_node({:?}) panicked", k, op_str(&op), id)); }
+            }
+        }
+        ops.push(op);
+        obs.push(format!("{}/{}#{}", outcome_str(&outcome), st.readback(), answers.join(",")));
+    }
+    let ops_text: Vec<String> = ops.iter().map(op_str).collect();
+    let idx: Vec<String> = ids.iter().map(|(id, h)| format!("{}:{}", enc(id), hs(*h))).collect();
+    let line = format!("{} {} | {} | {} | idx={} | xml={}", case, tables, init, ops_text.join(";"), idx.join(","), enc(&text));
+    Some((line, format!("{} {}", case, obs.join(";"))))
 }
 
 fn small_forests(pool: &Pool, max_kids: usize) -> Vec<Vec<ANode>> {
@@ -393,6 +487,16 @@ fn small_ops(hs: &[Handle], name: usize) -> Vec<Op> {
 fn replay_line(pid: &str, line: &str, out: &mut Out, stats: &mut Stats) {
     let (case, rest) = line.split_once(' ').unwrap();
     let parts: Vec<&str> = rest.split(" | ").collect();
+    if let Some(x) = parts.iter().find(|p| p.starts_with("xml=")) {
+        // a history of the xml:id stream: the start document is parsed again from its text
+        let ops: Vec<Op> = parts.get(2).unwrap_or(&"").split(';').filter(|s| !s.is_empty()).map(parse_op).collect();
+        let mut r = Rng::new(0);
+        if let Some((l, obs)) = run_id_history(case, &mut r, Some(dec(&x[4..])), Some(ops), 0, out, stats) {
+            out.case(&l);
+            out.imp(&obs);
+        }
+        return;
+    }
     let init = parts[1];
     let ops: Vec<Op> = parts.get(2).unwrap_or(&"").split(';').filter(|s| !s.is_empty()).map(parse_op).collect();
     // rebuild the start trees from the init text (handles stripped)
@@ -676,9 +780,36 @@ fn c12_oracle(case: &str, k: usize, op: &Op, outcome: &Outcome, before: &OForest
     if with_prefixes && in_place {
         stats.bump("c12.source_serialised_in_place");
         if !matches!(guard(|| st.xot.to_string(st.known[&clone])), Ok(Ok(_))) {
-            out.fail(case, "clone-with-prefixes-does-not-serialise", &format!("step {}: `{}`: the source serialises in place but the clone does not serialise on its own", k, op_str(op)));
+            // known mechanism: the cloned element is in no namespace (so it cannot carry a default-namespace declaration) and an
+            // element below it is in a namespace that the scope it is cloned out of binds only as the default namespace
+            let cls = if c12_default_only_below_no_namespace_top(st, before, src) { "clone-out-of-default-namespace-under-no-namespace-top" } else { "clone-with-prefixes-does-not-serialise" };
+            out.fail(case, cls, &format!("step {}: `{}`: the source serialises in place but the clone does not serialise on its own", k, op_str(op)));
         }
     }
+}
+
+/// class predicate of the C12 known finding (syntactic, on the store before the call)
+fn c12_default_only_below_no_namespace_top(st: &Store, f: &OForest, src: Handle) -> bool {
+    let ns_of = |name: usize| st.reg.names[name].1;
+    match &f.nodes[&src].val { OVal::El(n) if ns_of(*n) == 0 => {} _ => return false }
+    // bindings in force at the parent of the source, nearest declaration wins
+    let mut outer: Vec<(usize, usize)> = vec![];
+    let mut cur = f.nodes[&src].parent;
+    while let Some(a) = cur {
+        for k in &f.nodes[&a].kids {
+            if let OVal::Ns(p, n) = f.nodes[k].val { if !outer.iter().any(|(q, _)| *q == p) { outer.push((p, n)); } }
+        }
+        cur = f.nodes[&a].parent;
+    }
+    let mut stack: Vec<Handle> = f.nodes[&src].kids.clone();
+    while let Some(h) = stack.pop() {
+        if let OVal::El(n) = &f.nodes[&h].val {
+            let u = ns_of(*n);
+            if u != 0 && outer.iter().any(|(p, m)| *p == 0 && *m == u) && !outer.iter().any(|(p, m)| *p != 0 && *m == u) { return true; }
+        }
+        stack.extend(f.nodes[&h].kids.iter().copied());
+    }
+    false
 }
 
 /// C12: clone-heavy histories; every node kind as source; mutation of either side afterwards; plus Xot::clone
